@@ -141,6 +141,14 @@ def gen_library(seed, idx):
         hdr.add(apigen.render_function(name, 'void', [(sp, 'result')]))
         src.add('/**\n * %s:\n * @result: (%s): a value\n */\n' % (name, d))
         items.append(('out', name, sp, d))
+    # 7. typedef'd spellings in return and parameter position (the defaults look through the alias)
+    for ti in range(rng.choice([1, 2, 3])):
+        sp = rng.choice(['const char *', 'const gchar *', 'char *', 'gchar *', 'gint', 'guint32', 'gdouble', 'const FooRec *', 'gboolean', 'const guint8 *'])
+        tname = 'FooTd%d' % ti
+        hdr.add('typedef %s%s;' % (sp if sp.endswith('*') else sp + ' ', tname))
+        fname = 'foo_td%d' % ti
+        hdr.add(apigen.render_function(fname, tname, [(tname, 'a')]))
+        items.append(('typedef-fn', fname, tname, sp))
     return {'items': items, 'header': hdr.text(), 'source': src.text()}
 
 
@@ -219,6 +227,27 @@ def judge(lib, gir):
             if rbase in ('gpointer', 'gconstpointer') and rdepth == 0 or (rbase == 'void' and rdepth == 1):
                 if rv.get('nullable') != '1':
                     out.append(('nullable:gpointer-return', '%s: untyped pointer return %s is not nullable' % (where, ret)))
+        elif kind == 'typedef-fn':
+            _, name, tname, sp = it
+            f = funcs.get(name)
+            if f is None:
+                out.append(('function-missing', '%s missing from the GIR' % name))
+                continue
+            hits['typedef-fn'] += 1
+            classes.append('typedef-fn|%s' % sp)
+            rv = f.find('return-value')
+            tr = rv.get('transfer-ownership')
+            if sp.startswith('const ') or '*' not in sp:
+                if tr != 'none':
+                    out.append(('transfer:return-const-or-basic:typedef', '%s(): returns %s (typedef %s) with transfer-ownership=%r' % (name, tname, sp, tr)))
+            elif apigen.base_of(sp) in ('char', 'gchar'):
+                if tr != 'full':
+                    out.append(('transfer:return-string:typedef', '%s(): returns non-const %s (typedef %s) with transfer-ownership=%r' % (name, tname, sp, tr)))
+            inst, ps = girx.params_of(f)
+            for pnode in ([inst] if inst is not None else []) + ps:
+                if pnode.get('transfer-ownership') != 'none':
+                    out.append(('transfer:in-param:typedef', '%s(%s): in-parameter of type %s (typedef %s) has transfer-ownership=%r' % (
+                        name, pnode.get('name'), tname, sp, pnode.get('transfer-ownership'))))
         elif kind == 'cbs':
             _, name, params, arr, err = it
             f = funcs.get(name)
@@ -409,7 +438,7 @@ def run(args):
     for m in ('Transformer._canonicalize_ctype', 'Transformer._create_bare_container_type', 'MainTransformer._get_transfer_default',
               'MainTransformer._pass3_callable_callbacks', 'MainTransformer._pass3_callable_throws'):
         chk.require(chk.mechanism_entries[m] > 0, 'mechanism %s never entered' % m)
-    for h in ('plain', 'cbs', 'err', 'record', 'alias', 'out'):
+    for h in ('plain', 'cbs', 'err', 'record', 'alias', 'out', 'typedef-fn'):
         chk.require(chk.monitor_hits[h] > 0, 'oracle part %s judged nothing' % h)
     chk.require(len(harness) <= max(2, n // 50), 'harness failures: %r' % harness[:2])
     chk.assumptions = ['stand-in C parser; stub GLib/GObject/Gio GIRs', 'default transfer of returned records/objects is not documented and not asserted']
